@@ -151,6 +151,14 @@ impl Position {
 // ------------------------------------------------------------------------------ dx / dy applied as a translation (transmute)
 pub uninterp spec fn translated_spec(e: SvgElement, dx: real, dy: real) -> Option<SvgElement>;
 impl SvgElement {
+    /// (under contract in U-relpos: C11.shorthand.*) only what place_instance needs: the element keeps its name, and is
+    /// untouched when it carries no position shorthand
+    #[verifier::external_body]
+    pub fn expand_compound_pos(&mut self)
+        ensures final(self).name == old(self).name,
+            !old(self).attrs@.dom().contains("xy"@) && !old(self).attrs@.dom().contains("cxy"@) && !old(self).attrs@.dom().contains("xy1"@) && !old(self).attrs@.dom().contains("xy2"@)
+                && !old(self).attrs@.dom().contains("dxy"@) && !old(self).attrs@.dom().contains("xy-loc"@) ==> *final(self) == *old(self),
+    { unimplemented!() }
     #[verifier::external_body]
     pub fn translated(&self, dx: R32, dy: R32) -> (r: Result<SvgElement>)
         ensures (match translated_spec(*self, val(dx), val(dy)) { Some(e) => r == Ok::<SvgElement, SvgdxError>(e), None => r is Err })
